@@ -455,6 +455,35 @@ func drawC13(t *rapid.T) any {
 // every numeric target kind x boundary values that fit both, as scalar target,
 // struct field, slice element and map value.
 func enumC13(emit func(c any) bool) {
+	// a recursive type with a processing user unfolder: documents that nest the
+	// type inside itself (several processing states of one type active at once)
+	{
+		node := func(name string, kids ...[]model.Ev) []model.Ev {
+			out := []model.Ev{{K: model.KObjStart, L: -1}, {K: model.KKey, S: []byte("name")}, {K: model.KStr, S: []byte(name)}, {K: model.KKeyRef, S: []byte("kids")}, {K: model.KArrStart, L: len(kids)}}
+			for _, k := range kids {
+				out = append(out, k...)
+			}
+			return append(out, model.Ev{K: model.KArrEnd}, model.Ev{K: model.KObjEnd})
+		}
+		ut := gomodel.TypeDesc{Kind: "pool", Pool: "UTree"}
+		doc := node("a", node("b", node("c"), node("c2", node("d"))), node("e"))
+		for _, td := range []gomodel.TypeDesc{ut, {Kind: "ptr", Elem: &ut}, {Kind: "slice", Elem: &ut}, {Kind: "map", Elem: &ut},
+			{Kind: "struct", Fields: []gomodel.FieldDesc{{Name: "T", Type: ut}, {Name: "Z", Type: gomodel.TypeDesc{Kind: "string"}}}}} {
+			td := td
+			evs := doc
+			switch td.Kind {
+			case "slice":
+				evs = append(append(append([]model.Ev{{K: model.KArrStart, L: 2}}, doc...), node("f", node("g"))...), model.Ev{K: model.KArrEnd})
+			case "map":
+				evs = append(append([]model.Ev{{K: model.KObjStart, L: 1}, {K: model.KKey, S: []byte("k")}}, doc...), model.Ev{K: model.KObjEnd})
+			case "struct":
+				evs = append(append([]model.Ev{{K: model.KObjStart, L: -1}, {K: model.KKey, S: []byte("t")}}, doc...), model.Ev{K: model.KKey, S: []byte("z")}, model.Ev{K: model.KStr, S: []byte("after")}, model.Ev{K: model.KObjEnd})
+			}
+			if !emit(&C13Case{Mode: "typed", Type: &td, Evs: evs, Route: "direct", Prefill: true, Note: "recursive processing unfolder"}) {
+				return
+			}
+		}
+	}
 	targetKinds := []string{"int", "int8", "int16", "int32", "int64", "uint", "uint8", "uint16", "uint32", "uint64", "float32", "float64"}
 	bounds := []*big.Int{}
 	for _, s := range []string{"0", "1", "-1", "127", "128", "-128", "-129", "255", "256", "32767", "32768", "-32768", "65535", "65536", "2147483647", "2147483648", "-2147483648", "4294967295", "4294967296", "16777216", "9007199254740992", "9223372036854775807", "-9223372036854775808", "9223372036854775808", "18446744073709551615"} {
@@ -560,7 +589,7 @@ func enumC13(emit func(c any) bool) {
 func init() {
 	register(&Property{
 		ID:            "C13",
-		Rule:          "(a) generic: gen.Stream (strings/keys by value or by reference, announced/unknown lengths, element-type hints, extended events) into *interface{}; oracle = independently built generic Go value (typed slices/maps where a BaseType is announced, last duplicate wins), compared with exact Go types. (b) typed: generated supported Go type and value, rendered from the fold model as a PERTURBED stream — every number through any numeric event kind that holds it (all integer widths, float32<->float64, integers for integral floats, integral floats for small integers on direct delivery), strings/keys by value or reference, members permuted, members omitted, scalar members duplicated, unknown members of every shape (scalars, by-reference strings, nested objects with keys, arrays, typed arrays) at drawn positions and depths — delivered directly or through the json/ubjson/cborl encoder+parser into a fresh or sentinel-prefilled target (1 in 5: a target that already holds a generated value — only the outcome and the lengths of all slices are checked then), 1 in 5 with the unfolder's key cache enabled; oracle = reference model of assignment (gomodel.Assign) applied to the tree of the very same stream, every event method must return nil, unfolder stacks idle. Deterministic part: the full numeric conversion matrix (11 integer event kinds + 2 float kinds x 12 numeric target kinds x boundary values that fit) as scalar target, struct field, slice element and map value, and through the primitive user unfolder of the target kind (as target, []*T element, struct field and map value), and the same values inside maps and slices that announce their element type, into targets whose elements are scalars, pointers to scalars or user-unfolded types, plus empty typed containers into containers of structs. non-trivial = at least one unknown member or one width conversion (generic mode: more than one event); distinct by case hash",
+		Rule:          "(a) generic: gen.Stream (strings/keys by value or by reference, announced/unknown lengths, element-type hints, extended events) into *interface{}; oracle = independently built generic Go value (typed slices/maps where a BaseType is announced, last duplicate wins), compared with exact Go types. (b) typed: generated supported Go type and value, rendered from the fold model as a PERTURBED stream — every number through any numeric event kind that holds it (all integer widths, float32<->float64, integers for integral floats, integral floats for small integers on direct delivery), strings/keys by value or reference, members permuted, members omitted, scalar members duplicated, unknown members of every shape (scalars, by-reference strings, nested objects with keys, arrays, typed arrays) at drawn positions and depths — delivered directly or through the json/ubjson/cborl encoder+parser into a fresh or sentinel-prefilled target (1 in 5: a target that already holds a generated value — only the outcome and the lengths of all slices are checked then), 1 in 5 with the unfolder's key cache enabled; oracle = reference model of assignment (gomodel.Assign) applied to the tree of the very same stream, every event method must return nil, unfolder stacks idle. Deterministic part: nested documents for a recursive type with a processing user unfolder (as target, pointer, element, map value, field); the full numeric conversion matrix (11 integer event kinds + 2 float kinds x 12 numeric target kinds x boundary values that fit) as scalar target, struct field, slice element and map value, and through the primitive user unfolder of the target kind (as target, []*T element, struct field and map value), and the same values inside maps and slices that announce their element type, into targets whose elements are scalars, pointers to scalars or user-unfolded types, plus empty typed containers into containers of structs. non-trivial = at least one unknown member or one width conversion (generic mode: more than one event); distinct by case hash",
 		New:           func() any { return &C13Case{} },
 		Draw:          drawC13,
 		Check:         checkC13,
